@@ -13,6 +13,7 @@
 //	       d                  dump parts/blocks
 //	       new                start over with an empty table
 //	       tc <ns>            timestamp.Check
+//	       nm<k> <ta|td> <row>.. | <row>.. | ..   liaison-side merge of node answers (nodes.go); no table involved
 //	row  : <sid>:<ts>:<version>:<v>,<v>,...   values positional in the schema
 //	v    : N | i<dec> | f<16 hex bits> | s<hex|-> | b<hex|-> | A[<hex|->.<hex|->...] | I[<dec>.<dec>...]
 //
@@ -361,6 +362,12 @@ func handle(f []string) string {
 					return "rejected"
 				}
 				return "accepted"
+			case strings.HasPrefix(name, "nm"):
+				k, ok := nodeMergeSchema(name)
+				if !ok {
+					return "bad-op"
+				}
+				return doNodeMerge(schemas[k], op)
 			case name[0] == 'b' || name[0] == 'w':
 				k, err := strconv.Atoi(name[1:])
 				if err != nil {
